@@ -51,6 +51,8 @@ pub enum Native {
 	VecsNew(Kind),
 	/// checked constructor over plain references to the locks of that same shared data
 	VecsRefs(Kind),
+	/// `new` over a Vec of `&mut` references to fresh locks, listed in DESCENDING address order. 0 = Owned, 1 = Boxed, 2 = Retrying, 3 = Ref
+	MutRefs(u8, usize),
 	/// two distinct zero-sized members (empty owned collections): duplicate-free by identity
 	ZstPair(Kind),
 	/// zero-sized members around two references r_i, r_j: a duplicate iff i == j
@@ -86,7 +88,7 @@ impl Spec {
 		match self {
 			Spec::Coll(Kind::Retry, _) => true,
 			Spec::Pois(i) => i.retrying(),
-			Spec::Native(n) => matches!(n, Native::Arr3(Kind::Retry, _) | Native::TupMR(Kind::Retry, ..) | Native::Slice(Kind::Retry, _) | Native::NewOW(Kind::Retry, _) | Native::VecsNew(Kind::Retry) | Native::VecsRefs(Kind::Retry) | Native::ZstPair(Kind::Retry) | Native::ZstAround(Kind::Retry, ..) | Native::RetryNewVec(_) | Native::RetryNewArr3 | Native::RetryOwnedR(_)),
+			Spec::Native(n) => matches!(n, Native::Arr3(Kind::Retry, _) | Native::TupMR(Kind::Retry, ..) | Native::Slice(Kind::Retry, _) | Native::NewOW(Kind::Retry, _) | Native::VecsNew(Kind::Retry) | Native::VecsRefs(Kind::Retry) | Native::MutRefs(2, _) | Native::ZstPair(Kind::Retry) | Native::ZstAround(Kind::Retry, ..) | Native::RetryNewVec(_) | Native::RetryNewArr3 | Native::RetryOwnedR(_)),
 			_ => false,
 		}
 	}
@@ -487,6 +489,20 @@ impl<'w> World<'w> {
 					let b_ = self.fresh(true, u);
 					leaves = vec![a_, b_];
 					st.stash(OwnedLockCollection::new((Poisonable::new(reg_r(a_)), reg_r(b_))))
+				}
+				Native::MutRefs(which, n) => {
+					// fresh locks in one allocation (ascending addresses = ascending ids), listed back to front
+					let (v, ids) = self.fresh_rs(*n, 0);
+					let boxed: &'w mut Box<[R]> = st.stash_mut(v.into_boxed_slice());
+					let mut refs: Vec<&'w mut R> = boxed.iter_mut().collect();
+					refs.reverse();
+					leaves = ids.iter().rev().copied().collect();
+					match which {
+						0 => st.stash(OwnedLockCollection::new(refs)),
+						1 => st.stash(BoxedLockCollection::new(refs)),
+						2 => st.stash(RetryingLockCollection::new(refs)),
+						_ => st.stash(RefLockCollection::new(st.stash(refs))),
+					}
 				}
 				Native::VecsNew(k) => {
 					let (data, hi, lo) = self.shared_vecs();
